@@ -17,7 +17,6 @@ package internal
 import (
 	"errors"
 	"iter"
-	"maps"
 	"net/http"
 	"net/textproto"
 	"strconv"
@@ -109,7 +108,26 @@ func directivesSeq2(s string) iter.Seq2[string, string] {
 // parseDirectives parses a string of cache directives and returns a map
 // where the keys are the directive names and the values are the arguments.
 func parseDirectives(s string) map[string]string {
-	return maps.Collect(directivesSeq2(s))
+	d := make(map[string]string)
+	for key, value := range directivesSeq2(s) {
+		prev, repeated := d[key]
+		switch {
+		case !repeated:
+			d[key] = value
+		case key == "no-cache":
+			// Both forms may be present (RFC 9111 §5.2.2.4): the unqualified
+			// form covers the whole response, field lists add up.
+			a, b := ParseQuotedString(prev), ParseQuotedString(value)
+			if a == "" || b == "" {
+				d[key] = ""
+			} else {
+				d[key] = `"` + a + "," + b + `"`
+			}
+		default:
+			// Of several values for one directive the first is used (RFC 9111 §4.2.1).
+		}
+	}
+	return d
 }
 
 func hasToken(d map[string]string, token string) bool {
